@@ -240,6 +240,17 @@ Theorem C02_subgraph_T2 : forall N EG k EH ind sb,
 Proof. exact subgraph_sat_iff. Qed.
 Print Assumptions C02_subgraph_T2.
 
+(* model count: models <-> embeddings (increasing ones when symbreak) *)
+Theorem C02_subgraph_bijection : forall N EG k EH ind sb, 0 <= k ->
+  let P := fun phi => embedding N EG k EH ind phi /\ (sb = true -> increasing k phi) in
+  let F := subgraph_ir N EG k EH ind sb in
+  (forall a, irs_hold a F = true -> P (dec_map a 0 N)) /\
+  (forall phi, P phi -> irs_hold (enc_map 0 N phi) F = true) /\
+  (forall phi, P phi -> forall i, 1 <= i <= k -> dec_map (enc_map 0 N phi) 0 N i = phi i) /\
+  (forall a, irs_hold a F = true -> forall v, 0 < v <= 0 + k * N -> enc_map 0 N (dec_map a 0 N) v = a v).
+Proof. exact subgraph_bijection. Qed.
+Print Assumptions C02_subgraph_bijection.
+
 Theorem C02_kclique_T1 : forall a N E k sb l, kclique_ir N E k sb = Some l ->
   (irs_hold a l = true <->
    exists phi, graph_of (rel_of a 0 N) phi k N /\ homogeneous N E k true phi /\ (sb = true -> increasing k phi)).
@@ -250,6 +261,16 @@ Theorem C02_kclique_T2 : forall N E k sb l, kclique_ir N E k sb = Some l ->
   ((exists a, irs_hold a l = true) <-> exists S, homogeneous_set N E k true S).
 Proof. exact kclique_sat_iff. Qed.
 Print Assumptions C02_kclique_T2.
+
+(* model count: models <-> ordered k-cliques (k-cliques listed increasingly when symbreak) *)
+Theorem C02_kclique_bijection : forall N E k sb l, kclique_ir N E k sb = Some l ->
+  let P := fun phi => homogeneous N E k true phi /\ (sb = true -> increasing k phi) in
+  (forall a, irs_hold a l = true -> P (dec_map a 0 N)) /\
+  (forall phi, P phi -> irs_hold (enc_map 0 N phi) l = true) /\
+  (forall phi, P phi -> forall i, 1 <= i <= k -> dec_map (enc_map 0 N phi) 0 N i = phi i) /\
+  (forall a, irs_hold a l = true -> forall v, 0 < v <= 0 + k * N -> enc_map 0 N (dec_map a 0 N) v = a v).
+Proof. exact kclique_bijection. Qed.
+Print Assumptions C02_kclique_bijection.
 
 (* binary encoding: [bin_vertex a N i] = 1 + the number written by the bits of member i *)
 Theorem C02_kcliquebin_T1 : forall a N E k sb l, kcliquebin_ir N E k sb = Some l ->
